@@ -63,9 +63,54 @@ func Load(repoDir, specDir string, patterns []string) (*Loader, error) {
 	}
 	for fn := range ssautil.AllFunctions(prog) {
 		if fn.Pkg == nil && fn.Parent() == nil {
+			// instantiations of generic functions and methods: one
+			// representative per generic function (the first in name order)
+			if fn.Origin() == nil || len(fn.Blocks) == 0 {
+				continue
+			}
+			k := l.funcKeyFull(fn)
+			if old, ok := l.allFuncs[k]; ok && old.String() <= fn.String() {
+				continue
+			}
+			l.allFuncs[k] = fn
 			continue
 		}
 		l.allFuncs[l.funcKeyFull(fn)] = fn
+	}
+	// methods of generic types that the program never instantiates (library
+	// API): the generic body itself, type parameters treated as opaque
+	for _, p := range prog.AllPackages() {
+		if !strings.HasPrefix(p.Pkg.Path(), repoModule) {
+			continue
+		}
+		sc := p.Pkg.Scope()
+		for _, nm := range sc.Names() {
+			tn, ok := sc.Lookup(nm).(*types.TypeName)
+			if !ok {
+				continue
+			}
+			named, ok := tn.Type().(*types.Named)
+			if !ok || named.TypeParams().Len() == 0 {
+				continue
+			}
+			for i := 0; i < named.NumMethods(); i++ {
+				fn := prog.FuncValue(named.Method(i))
+				if fn == nil || len(fn.Blocks) == 0 {
+					continue
+				}
+				k := l.funcKeyFull(fn)
+				if _, ok := l.allFuncs[k]; !ok {
+					l.allFuncs[k] = fn
+				}
+			}
+		}
+	}
+	if os.Getenv("LSVC_DEBUG_FUNCS") != "" {
+		for k := range l.allFuncs {
+			if strings.Contains(k, os.Getenv("LSVC_DEBUG_FUNCS")) {
+				fmt.Fprintln(os.Stderr, "func:", k)
+			}
+		}
 	}
 	cs, err := LoadContracts(repoDir, specDir)
 	if err != nil {
@@ -99,9 +144,18 @@ func funcKey(fn *ssa.Function) string {
 		if n, ok := t.(*types.Named); ok {
 			tn = n.Obj().Name()
 		}
-		return "(" + star + tn + ")." + fn.Name()
+		return "(" + star + tn + ")." + stripTypeArgs(fn.Name())
 	}
-	return fn.Name()
+	return stripTypeArgs(fn.Name())
+}
+
+// stripTypeArgs: "Publish[pkg.T]" -> "Publish" (instantiations share the
+// generic function's contract)
+func stripTypeArgs(n string) string {
+	if i := strings.Index(n, "["); i >= 0 {
+		return n[:i]
+	}
+	return n
 }
 
 func funcPkgPath(fn *ssa.Function) string {
